@@ -23,6 +23,9 @@ SPEC = {
         "setter layout (wrappers are read through the function they forward to) and is compared with the published table of "
         "its PGN or with its own frozen table (flag overloads: one published status bit per flag; wrappers that fix a field: "
         "constants); plain integer fields are as wide as PUBLISHED (cut to the C type), not as the setter happens to mask",
+        "repeated records (129029 reference stations): frozen (count field, fixed bytes, bytes per record); the kernel checks on "
+        "every fully translated setter path that payload length = fixed part + count records for every count value the path "
+        "condition admits (C15_record_counts); the harness compares count field and payload length on every tuple",
         "enumerated fields: a frozen table (enumerator name -> published numeric code, numeric literals) is compared by the "
         "kernel with the enumerations as read from the headers on this run (C15_enum_*), and the harness looks the passed value "
         "up BY NAME among the enumerators as compiled from the real headers and demands the published code on the wire",
